@@ -298,6 +298,9 @@ fn run_prog<C: Counter>(
         let stale = |obs: &[Vec<ReadObs>]| -> Vec<Vec<ReadObs>> { obs.iter().filter(|e| e.iter().any(|r| r.count < r.acked)).cloned().collect() };
         let (res, obs) = run();
         let bad = stale(&obs);
+        if obs.len() > 20_000 {
+            println!("    ({key}: {} schedules)", obs.len());
+        }
         let t = tally.per_prog.entry(c.name()).or_insert((0, 0));
         t.0 += obs.len() as u64;
         t.1 += bad.len() as u64;
@@ -342,9 +345,13 @@ pub fn run(rep: &mut Report, thorough: bool, replay: Option<Value>) {
     rep.explanation = "every read that the body issued after observing the acknowledgement of i increments of a key must return a count >= i; the same harness run on the repo's non-atomic/buggy tutorial variants must find stale reads (vacuity guard)".into();
     rep.assume("unordered outputs are read through an `assume_ordering` observation appended by the harness (the programs themselves are the repo's functions, unmodified)");
     rep.assume("the simulator's exhaustive search itself is complete (C37)");
+    // ordered single-client programs are cheap; programs with unordered (client-keyed) outputs
+    // multiply schedules by the output-ordering observations the harness appends
     let k_max = if thorough { 4 } else { 3 };
-    rep.bound("max_increments", k_max);
-    rep.bound("max_increments_partitioned_counter", k_max - 1);
+    let k_keyed = if thorough { 3 } else { 2 };
+    rep.bound("max_increments_single_client_and_own", k_max);
+    rep.bound("max_increments_client_keyed_and_keyed", k_keyed);
+    rep.bound("max_increments_partitioned_counter", 2);
     rep.bound("max_increments_buggy_variants", 2);
     rep.bound("keys", 2);
 
@@ -373,9 +380,9 @@ pub fn run(rep: &mut Report, thorough: bool, replay: Option<Value>) {
         }};
     }
     macro_rules! prog {
-        ($sim:expr, $c:expr, $buggy:expr, $reset:expr) => {{
+        ($sim:expr, $c:expr, $buggy:expr, $k:expr, $reset:expr) => {{
             let mut st = Stats::new();
-            run_prog(&mut st, &mut tally, &$sim, &$c, $buggy, if $buggy { 2 } else { k_max }, thorough, &replay, $reset);
+            run_prog(&mut st, &mut tally, &$sim, &$c, $buggy, $k, thorough, &replay, $reset);
             let t = tally.per_prog.get($c.name()).copied().unwrap_or((0, 0));
             println!("  [{}] executions={} stale_read_executions={} violations={}", $c.name(), t.0, t.1, st.violations_total);
             rep.section($c.name(), st);
@@ -402,23 +409,23 @@ pub fn run(rep: &mut Report, thorough: bool, replay: Option<Value>) {
             Minimal { name: "own_write_ack_atomic_read", inc, ack: acks.sim_output(), get, resp: resps.sim_output() }
         };
         let sim = flow.sim().compiled();
-        prog!(sim, sc, false, &|| sc.reset());
-        prog!(sim, s1, false, &none);
-        prog!(sim, cc, false, &none);
-        prog!(sim, kc, false, &none);
-        prog!(sim, own, false, &none);
+        prog!(sim, sc, false, k_max, &|| sc.reset());
+        prog!(sim, s1, false, k_keyed, &none);
+        prog!(sim, cc, false, k_keyed, &none);
+        prog!(sim, kc, false, k_keyed, &none);
+        prog!(sim, own, false, k_max, &none);
     }
     {
         let mut flow = FlowBuilder::new();
         let sc_bug = single_client!(flow, "single_client_counter_buggy", tut::single_client_counter_buggy::CounterServer, tut::single_client_counter_buggy::single_client_counter_service_buggy);
         let sim = flow.sim().compiled();
-        prog!(sim, sc_bug, true, &|| sc_bug.reset());
+        prog!(sim, sc_bug, true, 2, &|| sc_bug.reset());
     }
     {
         let mut flow = FlowBuilder::new();
         let s1_bug = client_keyed!(flow, "single_counter_buggy", tut::single_counter_buggy::CounterServer, tut::single_counter_buggy::single_counter_service_buggy);
         let sim = flow.sim().compiled();
-        prog!(sim, s1_bug, true, &none);
+        prog!(sim, s1_bug, true, 2, &none);
     }
     {
         let mut flow = FlowBuilder::new();
@@ -430,7 +437,7 @@ pub fn run(rep: &mut Report, thorough: bool, replay: Option<Value>) {
             KeyedCounter { name: "keyed_counter_non_atomic", inc, ack: ordered(acks.entries()), get, resp: ordered(resps.entries()) }
         };
         let sim = flow.sim().compiled();
-        prog!(sim, kc_bug, true, &none);
+        prog!(sim, kc_bug, true, 2, &none);
     }
     {
         let mut flow = FlowBuilder::new();
@@ -442,7 +449,7 @@ pub fn run(rep: &mut Report, thorough: bool, replay: Option<Value>) {
             Minimal { name: "own_write_ack_plain_read", inc, ack: acks.sim_output(), get, resp: resps.sim_output() }
         };
         let sim = flow.sim().compiled();
-        prog!(sim, own_bug, true, &none);
+        prog!(sim, own_bug, true, 2, &none);
     }
 
     // ---- flow B: partitioned_counter (leader process + 5 shards) ---------------------------
@@ -457,7 +464,7 @@ pub fn run(rep: &mut Report, thorough: bool, replay: Option<Value>) {
         let sim = flow.sim().with_cluster_size(&shards, 5).compiled();
         let mut st = Stats::new();
         // the network hops multiply the schedules: one increment fewer than the other programs
-        run_prog(&mut st, &mut tally, &sim, &pc, false, k_max - 1, false, &replay, &|| {});
+        run_prog(&mut st, &mut tally, &sim, &pc, false, 2, false, &replay, &|| {});
         let t = tally.per_prog.get(pc.name()).copied().unwrap_or((0, 0));
         println!("  [{}] executions={} stale_read_executions={} violations={}", pc.name(), t.0, t.1, st.violations_total);
         rep.section(pc.name(), st);
